@@ -5,6 +5,7 @@ package props
 // together with io.EOF (which io.Reader allows and transport.StreamConn implementations other than *net.TCPConn do).
 
 import (
+	"bytes"
 	"context"
 	"fmt"
 	"net"
@@ -25,6 +26,9 @@ type C15Mem struct {
 	Garbage     int         `json:"garbage,omitempty"` // length of an invalid stream
 	ReadMax     int         `json:"read_max"`          // the client conn returns at most this many bytes per Read
 	EOFWithData bool        `json:"eof_with_data"`     // the last bytes come with io.EOF in one Read
+	// the same two for the target's conn
+	TgtReadMax     int  `json:"tgt_read_max,omitempty"`
+	TgtEOFWithData bool `json:"tgt_eof_with_data,omitempty"`
 }
 
 func genC15Mem(t *rapid.T) C15Mem {
@@ -32,6 +36,8 @@ func genC15Mem(t *rapid.T) C15Mem {
 		Valid: rapid.IntRange(0, 3).Draw(t, "valid") > 0, EOFWithData: rapid.Bool().Draw(t, "eofwithdata"),
 		ReadMax: rapid.SampledFrom([]int{1, 7, 50, 51, 316, 1000, 16384, 70000}).Draw(t, "readmax")}
 	if c.Valid {
+		c.TgtReadMax = rapid.SampledFrom([]int{0, 1, 100, 16383, 16384, 40000}).Draw(t, "tgtReadMax")
+		c.TgtEOFWithData = rapid.Bool().Draw(t, "tgtEOFWithData")
 		c.Payload = rapid.OneOf(rapid.IntRange(0, 3000), rapid.SampledFrom([]int{0, 1, 16383, 16384, 50000})).Draw(t, "payload")
 		c.Resp = rapid.OneOf(rapid.IntRange(0, 3000), rapid.SampledFrom([]int{0, 1, 16383, 16384, 50000})).Draw(t, "resp")
 	} else {
@@ -43,7 +49,7 @@ func genC15Mem(t *rapid.T) C15Mem {
 func runC15Mem(c C15Mem, info *kit.Info) *kit.Finding {
 	key := c.Key.Key()
 	resp := kit.DetBytes(c.Seed+2, c.Resp)
-	dialer := &kit.RecDialer{Response: func(string) ([]byte, error) { return resp, nil }}
+	dialer := &kit.RecDialer{Response: func(string) ([]byte, error) { return resp, nil }, ReadMax: c.TgtReadMax, EOFWithData: c.TgtEOFWithData}
 	h := service.NewStreamHandler(service.NewShadowsocksStreamAuthenticator(kit.NewCipherList([]kit.KeySpec{c.Key}), nil, nil, nil), 200*time.Millisecond)
 	h.SetTargetDialer(dialer)
 	var wire []byte
@@ -71,7 +77,7 @@ func runC15Mem(c C15Mem, info *kit.Info) *kit.Finding {
 		return kit.Violation("mem:no-close", "no close report (%s)", desc)
 	}
 	info.Steps = 1
-	info.NonTrivial = c.EOFWithData || c.ReadMax < 51
+	info.NonTrivial = c.EOFWithData || c.TgtEOFWithData || c.ReadMax < 51
 	if !c.Valid {
 		var probe *kit.TCPEvent
 		for _, e := range rec.Events() {
@@ -103,6 +109,12 @@ func runC15Mem(c C15Mem, info *kit.Info) *kit.Finding {
 	got := [4]int64{d.ClientProxy, d.ProxyTarget, d.TargetProxy, d.ProxyClient}
 	if tgtGot != len(payload) {
 		return kit.Violation("mem:relay", "the target received %d bytes of %d (%s)", tgtGot, len(payload), desc)
+	}
+	// what went to the client is the target's stream, whole (the relay must not drop bytes that arrive with the EOF)
+	dec := kit.NewStreamDecoder(key)
+	dec.Feed(conn.Output())
+	if dec.Err != nil || !bytes.Equal(dec.Plain, resp) {
+		return kit.Violation("mem:relay-to-client", "the target sent %d bytes (reads of at most %d, last bytes with io.EOF = %v); the client can decrypt %d bytes of them (error %v)", len(resp), c.TgtReadMax, c.TgtEOFWithData, len(dec.Plain), dec.Err)
 	}
 	if got != want {
 		return kit.Violation("mem:bytes", "reported [client->proxy proxy->target target->proxy proxy->client] = %v, carried %v (%s)", got, want, desc)
